@@ -59,6 +59,13 @@ Hardening pass 3 (HARDENING3.md classes G, H, I):
      Interferogram.render_from_psd (mask None / array / the default 'circle' string omitted and explicit).
   I  prime and awkward FFT sizes >= 64 with wrap-around content through every monitor of one_map and the tone test ((67,67), (64,101),
      (127,65), (129,74), (5,257), (71,2); thorough up to (257,257), (211,64), (1,127)); synthesis at 67, 101 (thorough 74, 127, 129, 257).
+
+Hardening pass 4 (HARDENING4.md class M):
+  M  `synth_callables`: psd_fcn given as a USER callable in 24 forms (lambdas with the library's parameter names, other names or no parameters,
+     functools.partial of ab_psd / abc_psd, plain and wrapping functions, functools.wraps, a copy of ab_psd, callable objects, a bound method;
+     18 models singular at zero frequency - power laws, K-correlation, logarithmic - and 6 finite there), mask None / array / 'circle' string,
+     through render_synthetic_surface (keyword, positional) and Interferogram.render_from_psd, precision 64 and 32: finite on exactly the valid
+     set, requested RMS, and the same surface as the library model computing the same numbers from the same random state.
 """
 import contextlib
 
@@ -82,7 +89,9 @@ RULE = ('height maps by class: every pairing of axis lengths from a size list (a
         'shapes of every parity class (4x5 .. 40x33, thorough up to 100x7 / 81x80), each against the canonical float64 / python-float call; '
         'foreign-traffic preludes (class F) on the same axis lengths before a fixed share of the maps / histories / syntheses; unit / magnitude regimes '
         '(class G): dx * K and heights * s twins of a map with rescaled band edges, the ordinary laws on maps with dx 3.7e-10 .. 1.25e10, synthesis with size * K; '
-        'special values (class H): requested RMS exactly 0 / 1e-300 / 1e-12 / 1e12 / 1e150 x mask class x form; prime sizes >= 64 (class I). A map is '
+        'special values (class H): requested RMS exactly 0 / 1e-300 / 1e-12 / 1e12 / 1e150 x mask class x form; prime sizes >= 64 (class I); '
+        'user callables as psd_fcn (class M): 24 callable forms (18 singular at zero frequency) x 3 of 7 (route, mask) variants per sample count in '
+        '{3 .. 67} (thorough 3 .. 40, 64 .. 129), random rms / size / model parameters, one sample count in three first under precision 32. A map is '
         'non-trivial when it is non-constant with >= 2 non-zero samples; distinct = distinct descriptor (workload, shape, dx, window '
         'class, content seed, layout, dtype, precision, parameters / full op list)')
 ASSUMPTIONS = ['"the window actually used" is what prysm.interferogram.make_window returns for the same (signal, dx, window) '
@@ -108,13 +117,18 @@ ASSUMPTIONS = ['"the window actually used" is what prysm.interferogram.make_wind
                'unit invariance: rescaled band edges sit between the same sample radii (edges keep 1e-6 of the largest radius away from every sample radius, a '
                'rescaling moves them by 1e-16); tolerances 1e-10 (PSD values), 1e-12 (axes), 1e-9 (band-limited RMS), all relative',
                'a requested RMS of exactly 0 is in domain (the current tree returns zeros on the valid samples); "exactly that RMS" is then read literally: every '
-               'valid sample is 0; tiny / huge requested RMS are judged with an RMS evaluated after normalising by the largest magnitude (no under / overflow)']
+               'valid sample is 0; tiny / huge requested RMS are judged with an RMS evaluated after normalising by the largest magnitude (no under / overflow)',
+               'a PSD model that is singular at zero frequency is in domain for render_synthetic_surface / render_from_psd in every callable form: the current '
+               'tree (/repo @ 66c5405) moves the zero-frequency sample off 0 for whatever callable it is given and returns a finite surface with the requested '
+               'RMS for each of the 24 forms of psd_fcn_forms (a callable returning a python list raises today: out of domain, not driven); a user model that, '
+               'evaluated by the monitor on the grid\'s frequency radii, is not finite, non-negative and somewhere positive has no surface to normalise and is '
+               'excluded and counted']
 REQUIRED = ['psd.parseval', 'psd.axes', 'psd.alignment(reference-dft)', 'psd.tone-bins', 'blrms.returns', 'blrms.additivity',
             'blrms.monotone', 'blrms.full-band', 'blrms.period-interface', 'synth.rms',
             'psd.repeat-call', 'blrms.repeat-call', 'history.Interferogram.psd', 'history.Interferogram.bandlimited_rms',
             'history.synth-then-psd', 'precision32.psd', 'precision32.synth',
             'forms.psd', 'forms.bandlimited_rms', 'forms.synth',
-            'scale.psd', 'scale.bandlimited_rms', 'scale.additivity', 'scale.synth', 'synth.special-rms']
+            'scale.psd', 'scale.bandlimited_rms', 'scale.additivity', 'scale.synth', 'synth.special-rms', 'synth.user-psd_fcn']
 UNREACHABLE = ['numpy 1.x runtime half of the configuration quantifier: only numpy 2.5.3 is installed and nothing can be fetched, so '
                'neither the behaviour of bandlimited_rms on a real numpy 1.x nor the numpy-1.x fallback branch of the proposed '
                'trapz->trapezoid repair is exercised by this check (the fallback was exercised once by hand with numpy.trapezoid '
@@ -909,6 +923,180 @@ def render_positional(ifg, s0, size, samples, rho, kw):
     np.random.seed(s0)
     return ifg.render_synthetic_surface(size, samples, rho, None, ifg.abc_psd, **kw)[2]
 
+
+# ------------------------------------------------------------------------------------------ class M (HARDENING4.md): user callables as psd_fcn
+# Established on the current tree (/repo @ 66c5405) by rendering with every form below for samples 3 .. 33, mask None / array, through
+# render_synthetic_surface and Interferogram.render_from_psd: EVERY form yields a surface that is finite on the whole valid set and has the
+# requested RMS to round-off - the zero-frequency sample is moved off 0 for whatever callable is given, so models that are singular at zero
+# frequency are in domain in every callable form.  A callable that returns a python list raises AttributeError today (out of domain, not driven).
+# Forms that compute the same numbers as a library model (`twin`) also give the same surface from the same random state (bit-identical or
+# ~1e-15 today; compared at 1e-9 of the requested RMS).
+class _PowerLaw:
+    """Callable object holding its own parameters (no keyword arguments reach it); `law` is a bound method taking one."""
+
+    def __init__(self, a, b):
+        self.a, self.b = a, b
+
+    def __call__(self, nu):
+        return self.a * nu ** (-self.b)
+
+    def law(self, nu, gain=1.0):
+        return gain * self.a / nu ** self.b
+
+
+class _PowerLawKw:
+    def __call__(self, nu, a, c):
+        return a / nu ** c
+
+
+def _user_fractal(nu, amp, slope):
+    return amp / nu ** slope
+
+
+def _user_kcorr(nu, sigma, ell, hurst):
+    return sigma ** 2 * ell / nu / (1 + (ell * nu) ** 2) ** (hurst + 0.5)
+
+
+def _user_gauss(nu, a, w):
+    return a * np.exp(-(nu / w) ** 2)
+
+
+def psd_fcn_forms(ifg, a, b, c, fs):
+    """[(form label, 'singular-at-0' | 'finite-at-0', callable, kwargs, twin)]; twin = None or (library model, kwargs) computing the same numbers.
+    `fs` = samples / size, the sampling frequency: widths of the rapidly decaying models are tied to it so that they do not underflow to a PSD
+    that is zero at every sample (a model without power is out of domain: 0 / 0 in the normalisation)."""
+    import functools
+    import types
+    ab, abc = ifg.ab_psd, ifg.abc_psd
+    tab, tabc = (ab, {'a': a, 'b': c}), (abc, {'a': a, 'b': b, 'c': c})       # the power law uses the exponent c
+
+    def wrapper(nu, a, b):
+        return ab(nu, a, b)
+
+    def wraps(f):
+        @functools.wraps(f)
+        def inner(*args, **kwargs):
+            return f(*args, **kwargs)
+        return inner
+
+    S, F = 'singular-at-0', 'finite-at-0'
+    return [
+        ('lambda(nu,a,b)', S, lambda nu, a, b: a / nu ** b, {'a': a, 'b': c}, tab),
+        ('lambda(nu,a,c)', S, lambda nu, a, c: a / nu ** c, {'a': a, 'c': c}, tab),
+        ('lambda(nu)', S, lambda nu: a * nu ** (-c), {}, tab),
+        ('lambda->ab_psd', S, lambda nu, a, b: ab(nu, a, b), {'a': a, 'b': c}, tab),
+        ('lambda:np.power', S, lambda nu, a, b: a * np.power(nu, -b), {'a': a, 'b': c}, tab),
+        ('lambda:exp-log', S, lambda nu, a, b: a * np.exp(-b * np.log(nu)), {'a': a, 'b': c}, tab),
+        ('partial(ab_psd,b)', S, functools.partial(ab, b=c), {'a': a}, tab),
+        ('partial(ab_psd,a,b)', S, functools.partial(ab, a=a, b=c), {}, tab),
+        ('function(nu,amp,slope)', S, _user_fractal, {'amp': a, 'slope': c}, tab),
+        ('function:k-correlation', S, _user_kcorr, {'sigma': np.sqrt(a), 'ell': 1 / b, 'hurst': c / 4}, None),
+        ('function->ab_psd', S, wrapper, {'a': a, 'b': c}, tab),
+        ('functools.wraps(ab_psd)', S, wraps(ab), {'a': a, 'b': c}, tab),
+        ('copy-of-ab_psd', S, types.FunctionType(ab.__code__, ab.__globals__, 'ab_psd'), {'a': a, 'b': c}, tab),
+        ('callable-object', S, _PowerLaw(a, c), {}, tab),
+        ('callable-object(nu,a,c)', S, _PowerLawKw(), {'a': a, 'c': c}, tab),
+        ('bound-method', S, _PowerLaw(a, c).law, {'gain': 1.0}, tab),
+        ('lambda:log-singular', S, lambda nu: np.log1p(1 / nu), {}, None),
+        ('lambda:float32-result', S, lambda nu, a, b: (a / nu ** b).astype('float32'), {'a': a, 'b': c}, None),
+        ('partial(abc_psd,b,c)', F, functools.partial(abc, b=b, c=c), {'a': a}, tabc),
+        ('lambda(nu,a,b,c)', F, lambda nu, a, b, c: a / (1 + (nu / b) ** c), {'a': a, 'b': b, 'c': c}, tabc),
+        ('functools.wraps(abc_psd)', F, wraps(abc), {'a': a, 'b': b, 'c': c}, tabc),
+        ('function:gaussian', F, _user_gauss, {'a': a, 'w': 0.3 * fs}, None),
+        ('lambda:constant', F, lambda nu: np.ones_like(nu), {}, None),
+        ('lambda:zero-at-0', F, lambda nu: nu ** 2 * np.exp(-nu / fs), {}, None),
+    ]
+
+
+def synth_callables(ctx, samples, seed, prec=64):
+    from ..util import precision
+    with precision(prec):
+        _synth_callables(ctx, samples, seed, prec)
+
+
+def _synth_callables(ctx, samples, seed, prec):
+    """Class M: psd_fcn given as a user callable in every form (lambda, partial, plain / wrapping function, callable object, bound method;
+    singular and non-singular at zero frequency; parameters under the library's names, under other names, or bound inside the callable), mask
+    None / array / the 'circle' string, through render_synthetic_surface (keyword and positional) and Interferogram.render_from_psd.  Judged by:
+    the surface is finite on exactly the valid set of the library-model call with the same mask, has the requested RMS over it, and - when the
+    callable computes the same numbers as a library model - is the surface the library model gives from the same random state."""
+    import warnings
+    from prysm import interferogram as ifg
+    rng = np.random.default_rng([int(seed), 37, samples])
+    rho = float(10 ** rng.uniform(-2, 2))
+    size = float(10 ** rng.uniform(-1, 2))
+    a, b, c = float(10 ** rng.uniform(-2, 3)), float(10 ** rng.uniform(-2, 0)), float(rng.uniform(1, 3.5))
+    i, j = np.indices((samples, samples))
+    circ = np.hypot(i - samples // 2, j - samples // 2) <= samples / 2
+    rand = rng.random((samples, samples)) > 0.4
+    rand[samples // 2, samples // 2] = True
+    s0 = int(rng.integers(0, 2 ** 31 - 1))
+    lt = prec == 32
+    rt = 1e-4 if lt else 1e-10
+    routes = [('render_synthetic_surface', 'none', lambda fn, kw: ifg.render_synthetic_surface(size, samples, rms=rho, mask=None, psd_fcn=fn, **kw)[2]),
+              ('render_synthetic_surface', 'array', lambda fn, kw: ifg.render_synthetic_surface(size, samples, rho, circ.astype(float), fn, **kw)[2]),
+              ('Interferogram.render_from_psd', 'circle-string', lambda fn, kw: ifg.Interferogram.render_from_psd(size, samples, rms=rho, psd_fcn=fn, **kw).data),
+              ('render_synthetic_surface', 'array', lambda fn, kw: ifg.render_synthetic_surface(size=size, samples=samples, rms=rho, mask=rand.copy(), psd_fcn=fn, **kw)[2]),
+              ('Interferogram.render_from_psd', 'array', lambda fn, kw: ifg.Interferogram.render_from_psd(size, samples, rho, circ.copy(), fn, **kw).data),
+              ('render_synthetic_surface', 'none', lambda fn, kw: ifg.render_synthetic_surface(size, samples, rho, None, fn, **kw)[2]),
+              ('Interferogram.render_from_psd', 'none', lambda fn, kw: ifg.Interferogram.render_from_psd(size, samples, rms=rho, mask=None, psd_fcn=fn, **kw).data)]
+    forms = psd_fcn_forms(ifg, a, b, c, samples / size)
+    # domain: the model evaluated by the monitor on the frequency radii of the grid (zero frequency replaced by a tenth of the first step)
+    # must be finite, non-negative and not zero everywhere - otherwise there is no surface to normalise (excluded and counted)
+    fax = faxis(samples, size / (samples - 1))
+    fax[samples // 2] = fax[samples // 2 + 1] / 10
+    nur = np.hypot(fax[None, :], fax[:, None]).astype('float32' if prec == 32 else 'float64')
+    lib = {}
+
+    def library(ri, fn, kw):
+        key = (ri, fn is ifg.ab_psd)
+        if key not in lib:
+            np.random.seed(s0)
+            lib[key] = np.asarray(routes[ri][2](fn, kw), dtype=float)
+        return lib[key]
+
+    for fi, (label, sing, fn, kw, twin) in enumerate(forms):
+        with np.errstate(all='ignore'):
+            pm = np.asarray(fn(nur, **kw), dtype=float)
+        if not (np.isfinite(pm).all() and (pm >= 0).all() and float(pm.max()) > 0 and float(pm.sum()) < 1e300):
+            ctx.skip('synth callables: this model has no finite positive power on the grid (out of domain)')
+            continue
+        for ri in sorted({(fi + samples) % len(routes), (3 * fi + samples + 1) % len(routes), (5 * fi + 2 * samples + 3) % len(routes)}):
+            route, mclass, call = routes[ri]
+            mk = 'none' if mclass in ('none', 'circle-string') else 'array'
+            desc = {'wl': 'synth-callable', 'samples': samples, 'psd_fcn': label, 'at0': sing, 'mask': mclass, 'route': route, 'variant': ri, 'rms': rho,
+                    'size': size, 'a': a, 'b': b, 'c': c, 'seed': int(seed), 'prec': prec,
+                    'class': f'synth-callable:{parity(samples)}|psd_fcn={label}|{mclass}|{route}' + ('|p32' if lt else '')}
+            ctx.case(desc)
+            base = f'C13/synthesis/arg:psd_fcn=user-callable:{sing}'
+            with ctx.guard(base, desc), warnings.catch_warnings():
+                warnings.simplefilter('ignore')
+                zlib = library(ri, *(twin if twin is not None else (ifg.abc_psd, {'a': a, 'b': b, 'c': c})))
+                vlib = zlib[np.isfinite(zlib)]
+                if vlib.size == 0 or not abs(safe_rms(vlib) - rho) <= rt * rho:
+                    ctx.skip('synth callables: the library-model reference of this route is itself off (judged by the synthesis workload)')
+                    continue
+                np.random.seed(s0)
+                z = np.asarray(call(fn, kw), dtype=float)
+                ctx.observe('synth.user-psd_fcn')
+                if lt:
+                    ctx.observe('precision32.synth')
+                fin = np.isfinite(z)
+                if z.shape != zlib.shape or not np.array_equal(fin, np.isfinite(zlib)):
+                    ctx.violation(f'{base}/not-finite-on-the-valid-samples/mask={mk}',
+                                  f'{route}(psd_fcn = {label}): {int(fin.sum())} finite samples, the library model with the same mask gives {vlib.size}',
+                                  desc, form=label, route=route)
+                    continue
+                got = safe_rms(z[fin])
+                if lt:
+                    ro('synth.rms', abs(got - rho) / rho)
+                if not abs(got - rho) <= rt * rho:
+                    ctx.violation(f'{base}/rms-not-as-requested/mask={mk}', f'{route}(rms={rho:.6g}, psd_fcn = {label}) has RMS {got:.6g} over its '
+                                  f'{int(fin.sum())} valid samples', desc, form=label, route=route, got=got)
+                elif twin is not None and not float(np.abs(z[fin] - zlib[fin]).max()) <= (1e-3 if lt else 1e-9) * rho:
+                    ctx.violation(f'{base}/differs-from-library-model/mask={mk}', f'{route}(psd_fcn = {label}) computes the same model as '
+                                  f'{twin[0].__name__} but gives another surface from the same random state', desc, form=label, route=route)
+
 # ------------------------------------------------------------------------------------------ classes G / H / I (HARDENING3.md)
 # Established on the current tree (/repo @ c2c1d7f) before anything below was made a law: psd() and bandlimited_rms() hold every law of this
 # module for dx from 1e-10 to 1e10 and heights scaled by 1e-12 .. 1e12 (nothing in them is absolute: the automatic window tests `== 0`);
@@ -1355,6 +1543,14 @@ def _run(ctx):
         for rep in range(ctx.pick(1, 4)):
             if ctx.mine(k + rep):
                 synth_forms(ctx, samples, ctx.seed * 11 + k + 1000 * rep)
+    # class M (HARDENING4.md): psd_fcn as a user callable in every form, singular and non-singular at zero frequency; one sample count in
+    # three also under precision 32 immediately before the float64 run
+    for k, samples in enumerate(ctx.pick([3, 4, 5, 8, 9, 16, 21, 33, 64, 67], list(range(3, 41)) + [64, 65, 67, 101, 128, 129])):
+        for rep in range(ctx.pick(1, 3)):
+            if ctx.mine(k + rep):
+                if (k + rep) % 3 == 0:
+                    synth_callables(ctx, samples, ctx.seed * 43 + k + 1000 * rep, prec=32)
+                synth_callables(ctx, samples, ctx.seed * 43 + k + 1000 * rep)
 
     # class G (HARDENING3.md): unit / magnitude regimes.  (1) the metamorphic scale laws; (2) the ordinary laws of one_map (psd contract, band
     # laws through the function and the method, tone bins) on maps whose dx is 1e-9 .. 1e9 times the usual ones
